@@ -55,7 +55,7 @@ def items(tier):
         sp = F.with_teams(fl, "POOL2")
         sp = dict(sp, teams=[dict(tm, wire="ctor") for tm in sp["teams"]])
         out.append((sp, {"rule": "TSLACK", "max_time": F.seq_bound(sp) + 8}))
-    for sp in F.auto_component_specs() + F.auto_in_workplace_specs() + F.double_link_specs() + F.float_residue_specs() + F.auto_placement_specs() + F.nested_running_specs() + F.ff_chain_specs() + F.id_namespace_specs() + F.waves_specs():
+    for sp in F.auto_component_specs() + F.auto_in_workplace_specs() + F.double_link_specs() + F.float_residue_specs() + F.auto_placement_specs() + F.nested_running_specs() + F.ff_chain_specs() + F.id_namespace_specs() + F.waves_specs() + F.stationed_worker_specs():
         out.append((sp, {"rule": "TSLACK", "max_time": F.seq_bound(sp) + 10}))
     for sp in F.fac_specs(tier, only_single_task_components=True):
         out.append((sp, {"rule": "TSLACK", "max_time": F.seq_bound(sp) + 8}))
